@@ -125,13 +125,14 @@ class LeanLock:
         self.f.close()
 
 
-def regenerate_gen(scratch, extract_bin):
+def regenerate_gen(scratch, extract_bins):
     gen = os.path.join(LEAN, "TaskModel", "Gen")
     tmp = scratch.path("gen")
     os.makedirs(tmp, exist_ok=True)
-    p = run([extract_bin, "-repo", REPO, "-out", tmp], check=False)
-    if p.returncode != 0:
-        raise BuildError("fact extractor failed:\n" + p.stdout[-4000:])
+    for extract_bin in extract_bins:
+        p = run([extract_bin, "-repo", REPO, "-out", tmp], check=False, env=GOENV)
+        if p.returncode != 0:
+            raise BuildError("fact extractor failed:\n" + p.stdout[-4000:])
     # Replace generated files only when their content changed (keeps lake incremental),
     # and delete stale ones.
     os.makedirs(gen, exist_ok=True)
@@ -228,6 +229,13 @@ def run_domain(scratch, harness_bin, driver_bin, domain, seed, tier, replay=None
     env.update(extra_env or {})
     t0 = time.time()
     p = run(cmd, env=env, check=False, timeout=timeout, cwd=out)
+    if p.returncode == 66 and "DATA RACE" in (p.stdout or ""):
+        # the race detector (harness built with -race, GORACE=halt_on_error=1) stopped the run
+        rep = p.stdout[p.stdout.index("WARNING: DATA RACE"):][:6000]
+        stats = {"domain": domain, "seed": seed, "tier": tier, "evaluations": 1, "distinct_nontrivial": 1,
+                 "rule": "race detector report", "features": {"race-report": 1}, "samples": [rep[:1500]]}
+        return stats, [{"domain": domain, "index": 0, "case_line": "race.report", "case": {"race_report": rep},
+                        "impl": "DATA RACE", "model": "no conflicting unsynchronised accesses (lockset discipline)"}]
     if p.returncode != 0:
         raise BuildError("harness domain %s failed (rc=%d):\n%s" % (domain, p.returncode, p.stdout[-4000:]))
     t1 = time.time()
